@@ -124,7 +124,11 @@ class lstsq_constrained_gauss_newton(LstSqConstrained):
             cond3 = linalg.vector_norm(state.dx) > self.tol * np.sqrt(state.dx.size)
 
             # If any of the conditions is violated, the iteration is over.
-            return np.logical_and(np.logical_and(cond1, cond2), cond3)
+            # Exception: always take the first step. A feasible starting point
+            # is not necessarily optimal, and optimality is only established
+            # by a Gauss--Newton step (which is exact for affine constraints).
+            is_first = state.i == 0
+            return np.logical_and(is_first | np.logical_and(cond1, cond3), cond2)
 
         def body_fun(state: State) -> State:
             Jx = func.jacfwd(lambda s: constraint(s, **constraint_kwargs))(state.x)
